@@ -9,7 +9,9 @@
 #include <stdint.h>
 #include <inttypes.h>
 #include "sz.h"
+#include <unistd.h>
 #include "szimpl.h"
+FILE* R;
 
 /* ---------- parsing / printing ---------- */
 uint64_t hx(const char* s) { return strtoull(s, NULL, 16); }
@@ -161,7 +163,8 @@ extern struct op more_ops[];
 int main(int argc, char** argv)
 {
 	size_t cap = 1 << 20; char* line = (char*)malloc(cap);
-	setvbuf(stdout, NULL, _IOFBF, 1 << 16);
+	int saved = dup(1); dup2(2, 1); R = fdopen(saved, "w");
+	setvbuf(R, NULL, _IOFBF, 1 << 16);
 	harness_init();
 	while (1) {
 		size_t len = 0; int c;
@@ -180,7 +183,7 @@ int main(int argc, char** argv)
 		for (struct op* o = base_ops; o->name && !found; o++) if (!strcmp(o->name, opname)) { o->fn(n, args); found = 1; }
 		for (struct op* o = more_ops; o->name && !found; o++) if (!strcmp(o->name, opname)) { o->fn(n, args); found = 1; }
 		if (!found) printf("ERR unknown-op\n");
-		fflush(stdout);
+		fflush(R); fflush(stdout);
 	}
 	return 0;
 }
